@@ -4,13 +4,14 @@
   links as a native executable.
 -/
 import DateutilVerif.Ops.Base
+import DateutilVerif.Ops.Factory
 import DateutilVerif.Ops.ICal
 import DateutilVerif.Ops.IsoParser
 import DateutilVerif.Ops.RRuleStr
 import DateutilVerif.Ops.TzStr
 
 def handlers : List (String → List String → Option String) :=
-  [Ops.Base.handle, Ops.ICal.handle, Ops.IsoParser.handle, Ops.RRuleStr.handle, Ops.TzStr.handle]
+  [Ops.Base.handle, Ops.Factory.handle, Ops.ICal.handle, Ops.IsoParser.handle, Ops.RRuleStr.handle, Ops.TzStr.handle]
 
 def dispatch (line : String) : String :=
   match (line.trimAscii.toString.splitOn " ").filter (· ≠ "") with
